@@ -22,7 +22,7 @@ let returns_value (op : (z * z) hp_op) : bool =
   match op with HpPop | HpTop | HpRemoveAt _ -> true | _ -> false
 
 let () =
-  Registry.register "heap" (fun toks ->
+  let run_ops = (fun toks ->
     let rec go l ops acc =
       match ops with
       | [] -> List.rev acc
@@ -36,7 +36,9 @@ let () =
            go l' rest ((show_arr l' ^ ">" ^ vs) :: acc)
          | HpPanic -> List.rev ("PANIC" :: acc)
          | HpNoFuel -> List.rev ("NOFUEL" :: acc)) in
-    String.concat ";" (go [] toks []));
+    String.concat ";" (go [] toks [])) in
+  Registry.register "heap" run_ops;
+  Registry.register "heapraw" run_ops;
   Registry.register "heapinit" (fun toks ->
     let items = List.map (fun t -> match String.split_on_char ':' t with
       | [p; id] -> (z_of_string p, z_of_string id)
